@@ -140,3 +140,37 @@ func VerifInterpEvents(bin []byte, export string, nfuncs int, args []uint64) (re
 
 // VerifAddPassiveData adds a data-count section and one passive data segment to an encoded module.
 func VerifAddPassiveData(bin []byte, data []byte) []byte { return verifAddPassiveData(bin, data) }
+
+// VerifImportedGlobalsModule encodes a module that imports the mutable i32 globals "A"."g<k>" for each k in owners (the
+// same k may appear twice: one exported global imported under two indexes) and exports f with the given signature/body.
+func VerifImportedGlobalsModule(owners []int, params, results, body []byte) []byte {
+	m := &verifModule{tableMin: -1, funcs: []verifFunc{{params: params, results: results, body: body, export: "f"}}}
+	for _, k := range owners {
+		m.imports = append(m.imports, verifImport{module: "A", name: []string{"g0", "g1"}[k], kind: 3, desc: []byte{vI32, 0x01}})
+	}
+	return m.encode()
+}
+
+// VerifInterpRunWithGlobalsExporter instantiates an exporter "A" of two mutable i32 globals g0, g1 (initial values init0,
+// init1, set through its own setter), then bin, calls bin's export f and returns results, trap kind and A's globals.
+func VerifInterpRunWithGlobalsExporter(bin []byte, init0, init1 uint32, args []uint64) (res []uint64, trap int, g0, g1 uint64, ok bool) {
+	ctx := context.Background()
+	w := newVerifWorld(ctx)
+	a := &verifModule{tableMin: -1,
+		globals: []verifGlobal{{typ: vI32, mutable: true, init: []byte{0x41, 0x00}}, {typ: vI32, mutable: true, init: []byte{0x41, 0x00}}},
+		exports: []verifExport{{name: "g0", kind: 3, index: 0}, {name: "g1", kind: 3, index: 1}},
+		funcs:   []verifFunc{{params: []byte{vI32, vI32}, export: "init", body: []byte{0x20, 0x00, 0x24, 0x00, 0x20, 0x01, 0x24, 0x01}}}}
+	va, err := w.guest(ctx, a, "A", nil, false)
+	if err != nil {
+		return nil, 0, 0, 0, false
+	}
+	if _, err = va.inst.ExportedFunction("init").Call(ctx, uint64(init0), uint64(init1)); err != nil {
+		return nil, 0, 0, 0, false
+	}
+	vb, err := verifInstantiate(ctx, bin, "B", w.store, w.eng, nil, false)
+	if err != nil {
+		return nil, 0, 0, 0, false
+	}
+	res, err = vb.inst.ExportedFunction("f").Call(ctx, args...)
+	return res, VerifTrapKind(err), va.inst.Globals[0].Val, va.inst.Globals[1].Val, true
+}
